@@ -186,7 +186,8 @@ def run(res, tier, seed, replay):
         distinct_nontrivial=len(nontrivial), case_kinds=kinds, encodings_ok=enc_ok, encodings_failed=enc_err,
         cases_with_diagnostics=diag_cases, deterministic_aborts=aborts,
         rule="cases: H = graph-API histories over a universe of 12 definable types (a base type with 8 direct/indirect "
-             "dependants), 10 importable kinds and 9 packages with overlapping implicit imports (fixed shapes named in the "
+             "dependants), 10 importable kinds and 13 packages with overlapping implicit imports, incl. a socket with eight imports "
+             "and plugs filling all / half / the rest of them through the library plug() (fixed shapes named in the "
              "property + generators base-after-dependants / same-rank / overlapping-implicit-imports / random adaptive); "
              "D = every .wac fixture under crates/wac-parser/tests/{parser,resolution,encoding}[/fail] and examples/script.wac "
              "(parse -> print + AST json; resolve -> dot; encode in both dependency modes; failures -> rendered miette "
